@@ -4,6 +4,7 @@
 
 #include <algorithm>
 #include <map>
+#include <set>
 #include <vector>
 
 #include "common.h"
@@ -342,6 +343,7 @@ void gen(Rng& r, Plan& p, const GenParams& gp) {
   static const int64_t ep[] = {0, 0, 0, 3, 32766, 32767, 65534, 65535};
   p.cfg["epoch0"] = ep[r.below(8)];
   p.cfg["end_clear"] = r.chance(1, 5);
+  p.cfg["clear_wake"] = r.chance(1, 6) ? (int64_t)r.range(1, 2) : 0;
   p.cfg["max_idle_jumps"] = 3000;
   if (!c02 && r.chance(1, 10)) {
     // targeted shape: one non-concurrent producer whose try_push_n batches wrap
@@ -580,6 +582,31 @@ void run(const Plan& p) {
   }
   if (s.q.size() != 0) fail("api", "size", "size() = %zu on an empty queue", s.q.size());
   check_history();
+  // clear() against producers that sleep on a full queue (the queue is empty and
+  // quiescent at this point): clear() must wake them, their values must arrive
+  if (p.get("clear_wake", 0) && s.pushC && s.popC) {
+    int np = (int)std::max<int64_t>(1, std::min<int64_t>(p.get("clear_wake", 1), 2));
+    if ((size_t)np > s.cap) np = (int)s.cap;  // clear() frees cap slots: more sleepers than that would wait for a consumer nobody provides
+    for (size_t i = 0; i < s.cap; i++)
+      if (!s.q.try_push<true, true>([&](Cell& x) { x = make_cell(0xC1EA000000ULL + i); })) fail("spurious-fail", "try_push", "try_push on a queue with free slots failed while filling it before clear()");
+    std::vector<std::thread> prod;
+    for (int k = 0; k < np; k++)
+      prod.emplace_back([k] { S->q.push<true, true, true>([&](Cell& x) { x = make_cell(0xC1EB000000ULL + (uint64_t)k); }); });
+    wait_quiescent();  // the producers found the queue full: asleep in futex_wait
+    set_crash_site("clear-with-sleeping-producers");
+    s.q.clear();
+    for (auto& t : prod) t.join();  // a producer that is never woken is a deadlock verdict here
+    set_crash_site(nullptr);
+    std::set<uint64_t> got;
+    for (int k = 0; k < np; k++) {
+      Cell c; bool ok = s.q.try_pop<true, true>([&](Cell& x) { c = x; });
+      if (!ok) fail("lost", "after-clear", "a blocking push that slept through clear() returned, but its value is not in the queue");
+      if (c.v < 0xC1EB000000ULL || c.v >= 0xC1EB000000ULL + (uint64_t)np || c.chk[0] != hx::mixv(c.v, 0) || !got.insert(c.v).second)
+        fail("invented", "after-clear", "after clear() the queue delivered %#llx, not one of the values pushed afterwards", (unsigned long long)c.v);
+    }
+    if (s.q.try_pop<true, true>([&](Cell&) {})) fail("invented", "after-clear", "clear() left elements behind");
+    probe("clear_woke_sleeping_producers");
+  }
   for (auto& r : s.recs) if (r->kind == K_XPOP) probe("xpop_ops");
   if (s.q._next_push_index.load(std::memory_order_relaxed) - base >= 2 * s.cap) probe("ring_reused");
 }
